@@ -95,9 +95,9 @@ theorem failChain_labels (π : Path) (i : Nat) (tys : List Ty) :
     · subst hl; exact ⟨rfl, Nat.le_refl _⟩
     · have := ih (i + 1) l hl; exact ⟨this.1, by omega⟩
 
-theorem prodCode_labels (π : Path) (tys : List Ty) (ps : List Pat) (elems : List Instr × List Path) (D : List Path)
-    (helems : ∀ l ∈ labelsOf elems.1, π.length < l.path.length) :
-    ∀ l ∈ labelsOf (prodCode π tys ps elems D).1, (l.path = π ∧ 2 ≤ l.kind) ∨ π.length < l.path.length := by
+theorem prodCode_labels (π : Path) (tys : List Ty) (ps : List Pat) (elems : List Instr)
+    (helems : ∀ l ∈ labelsOf elems, π.length < l.path.length) :
+    ∀ l ∈ labelsOf (prodCode π tys ps elems), (l.path = π ∧ 2 ≤ l.kind) ∨ π.length < l.path.length := by
   intro l hl
   unfold prodCode at hl
   split at hl
@@ -114,11 +114,9 @@ theorem prodCode_labels (π : Path) (tys : List Ty) (ps : List Pat) (elems : Lis
 
 theorem variantWrap_labels (π : Path) (idx : Nat) (inner : List Instr)
     (hinner : ∀ l ∈ labelsOf inner, π.length ≤ l.path.length) :
-    ∀ l ∈ labelsOf ([Instr.deconVariant, .pushInt idx, .eqInt, .jumpIfFalse (lblTagFail π)] ++ inner ++
-      [.jump (lblEndVariant π), .label (lblTagFail π), .pop, .pushBool false, .label (lblEndVariant π)]),
-      π.length ≤ l.path.length := by
+    ∀ l ∈ labelsOf (variantWrap π idx inner), π.length ≤ l.path.length := by
   intro l hl
-  simp only [labelsOf_append, labelsOf, List.nil_append, List.mem_append, List.mem_cons, List.mem_nil_iff,
+  simp only [variantWrap, labelsOf_append, labelsOf, List.nil_append, List.mem_append, List.mem_cons, List.mem_nil_iff,
     or_false] at hl
   rcases hl with hl | hl | hl
   · exact hinner l hl
@@ -126,16 +124,14 @@ theorem variantWrap_labels (π : Path) (idx : Nat) (inner : List Instr)
   · subst hl; simp [lblEndVariant]
 
 theorem voidCase_labels (π : Path) (idx : Nat) :
-    ∀ l ∈ labelsOf [Instr.deconVariant, .pushInt idx, .eqInt, .jumpIfFalse (lblTagFail π),
-        .pop, .pushBool true, .jump (lblEndVariant π),
-        .label (lblTagFail π), .pop, .pushBool false, .label (lblEndVariant π)], π.length ≤ l.path.length := by
+    ∀ l ∈ labelsOf (voidCase π idx), π.length ≤ l.path.length := by
   intro l hl
-  simp only [labelsOf, List.mem_cons, List.mem_nil_iff, or_false] at hl
+  simp only [voidCase, labelsOf, List.mem_cons, List.mem_nil_iff, or_false] at hl
   rcases hl with hl | hl <;> subst hl <;> simp [lblTagFail, lblEndVariant]
 
 mutual
   theorem cmp_labels (env : EnumEnv) (π : Path) (ty : Ty) (p : Pat) (D : List Path) :
-      ∀ l ∈ labelsOf (cmp env π ty p D).1, π.length ≤ l.path.length := by
+      ∀ l ∈ labelsOf (cmp env π ty p D), π.length ≤ l.path.length := by
     match p with
     | .wild => intro l hl; simp only [cmp, labelsOf_append, labelsOf_ite_pop] at hl; simp [labelsOf] at hl
     | .bind _ => intro l hl; simp only [cmp, labelsOf_append, labelsOf_ite_pop] at hl; simp [labelsOf] at hl
@@ -153,13 +149,13 @@ mutual
     | .tuple ps =>
       intro l hl
       simp only [cmp] at hl
-      rcases prodCode_labels π _ ps _ D (cmpElems_labels env π 0 _ ps D) l hl with h' | h'
+      rcases prodCode_labels π _ ps _ (cmpElems_labels env π 0 _ ps D) l hl with h' | h'
       · rw [h'.1]; exact Nat.le_refl _
       · omega
     | .struct _ ps =>
       intro l hl
       simp only [cmp] at hl
-      rcases prodCode_labels π _ ps _ D (cmpElems_labels env π 0 _ ps D) l hl with h' | h'
+      rcases prodCode_labels π _ ps _ (cmpElems_labels env π 0 _ ps D) l hl with h' | h'
       · rw [h'.1]; exact Nat.le_refl _
       · omega
     | .variant0 _ idx => simp only [cmp]; exact voidCase_labels π idx
@@ -180,11 +176,11 @@ mutual
           have := cmpFirst_labels env π _ ps D l hl; omega
       · apply variantWrap_labels
         intro l hl
-        rcases prodCode_labels π _ ps _ D (cmpElems_labels env π 0 _ ps D) l hl with h' | h'
+        rcases prodCode_labels π _ ps _ (cmpElems_labels env π 0 _ ps D) l hl with h' | h'
         · rw [h'.1]; exact Nat.le_refl _
         · omega
   theorem cmpFirst_labels (env : EnumEnv) (π : Path) (ty : Ty) (ps : List Pat) (D : List Path) :
-      ∀ l ∈ labelsOf (cmpFirst env π ty ps D).1, π.length < l.path.length := by
+      ∀ l ∈ labelsOf (cmpFirst env π ty ps D), π.length < l.path.length := by
     match ps with
     | [] => simp [cmpFirst]
     | p :: _ =>
@@ -192,7 +188,7 @@ mutual
       simp only [cmpFirst] at hl
       have := cmp_labels env (π ++ [0]) ty p D l hl; simp at this; omega
   theorem cmpElems_labels (env : EnumEnv) (π : Path) (i : Nat) (tys : List Ty) (ps : List Pat) (D : List Path) :
-      ∀ l ∈ labelsOf (cmpElems env π i tys ps D).1, π.length < l.path.length := by
+      ∀ l ∈ labelsOf (cmpElems env π i tys ps D), π.length < l.path.length := by
     match ps with
     | [] => simp [cmpElems]
     | p :: ps =>
@@ -208,8 +204,9 @@ end
 /-! ## Which alternative the code compiles; first failing element -/
 
 mutual
-  /-- the pattern whose comparison `cmp` emits under the decision set `D`: an or-pattern is replaced
-      by the alternative the decisions select (sub-patterns the code never looks at stay as they are) -/
+  /-- the pattern whose comparison `cmp` emits (and whose variables `bind` binds) under the decision
+      set `D`: an or-pattern is replaced by the alternative the decisions select (sub-patterns the code
+      never looks at stay as they are) -/
   def resolveP (env : EnumEnv) : Path → Ty → Pat → List Path → Pat
     | π, ty, .or l r, D =>
       if D.contains π then resolveP env (π ++ [1]) ty r D else resolveP env (π ++ [0]) ty l D
@@ -221,7 +218,7 @@ mutual
     | π, _, .variantNamed e idx ps, D =>
       if ps.length == 1 then
         if (((variantFields env e idx).getD []).headD .void).isVoid then .variantNamed e idx ps
-        else .variantNamed e idx (resolveFirst env π (((variantFields env e idx).getD []).headD .void) ps D)
+        else .variantNamed e idx (resolveElems env π 0 ((variantFields env e idx).getD []) ps D)
       else .variantNamed e idx (resolveElems env π 0 ((variantFields env e idx).getD []) ps D)
     | _, _, .wild, _ => .wild
     | _, _, .bind x, _ => .bind x
@@ -231,14 +228,10 @@ mutual
     | _, _, .str s, _ => .str s
     | _, _, .void, _ => .void
     | _, _, .variant0 e i, _ => .variant0 e i
-  def resolveFirst (env : EnumEnv) : Path → Ty → List Pat → List Path → List Pat
-    | π, t, p :: rest, D => resolveP env (π ++ [0]) t p D :: rest
-    | _, _, [], _ => []
   def resolveElems (env : EnumEnv) : Path → Nat → List Ty → List Pat → List Path → List Pat
     | _, _, _, [], _ => []
     | π, i, tys, p :: ps, D =>
-      resolveP env (π ++ [i]) (tys.headD .void) p D ::
-        resolveElems env π (i + 1) (tys.drop 1) ps (cmp env (π ++ [i]) (tys.headD .void) p D).2
+      resolveP env (π ++ [i]) (tys.headD .void) p D :: resolveElems env π (i + 1) (tys.drop 1) ps D
 end
 
 /-- index of the first component pattern that does not match -/
@@ -329,14 +322,14 @@ theorem failChain_skip (env : EnumEnv) (π : Path) (j : Nat) (tys : List Ty) (vs
 /-! ## The product wrapper and the variant wrapper -/
 
 theorem prodCode_ok (env : EnumEnv) (π : Path) (tys : List Ty) (ps rps : List Pat)
-    (elems : List Instr × List Path) (D : List Path) (vs : List Val)
+    (elems : List Instr) (vs : List Val)
     (hlen : tys.length = vs.length) (hps : ps.length = tys.length) (hrl : rps.length = ps.length)
     (stk : List SVal) (locs : List (Nat × SVal)) (tk : Option Nat)
-    (helems : ps ≠ [] → run elems.1 (mk (reprFields env tys vs ++ stk) locs tk none) =
+    (helems : ps ≠ [] → run elems (mk (reprFields env tys vs ++ stk) locs tk none) =
       some (match elemsFail rps vs with
         | none => mk stk locs tk (some (lblSuccess π))
         | some k => mk (reprFields env (tys.drop (k + 1)) (vs.drop (k + 1)) ++ stk) locs tk (some (lblFail π k)))) :
-    run (prodCode π tys ps elems D).1 (mk (.struct (reprFields env tys vs) :: stk) locs tk none) =
+    run (prodCode π tys ps elems) (mk (.struct (reprFields env tys vs) :: stk) locs tk none) =
       some (mk (.bool (pmatchAll rps vs) :: stk) locs tk none) := by
   unfold prodCode
   by_cases hemp : ps.isEmpty = true
@@ -397,10 +390,9 @@ theorem variantWrap_ok (π : Path) (idx tag : Nat) (plv : SVal) (inner : List In
     (stk : List SVal) (locs : List (Nat × SVal)) (tk : Option Nat)
     (hlab : lblTagFail π ∉ labelsOf inner)
     (hinner : tag = idx → run inner (mk (plv :: stk) locs tk none) = some (mk (.bool b :: stk) locs tk none)) :
-    run ([Instr.deconVariant, .pushInt idx, .eqInt, .jumpIfFalse (lblTagFail π)] ++ inner ++
-        [.jump (lblEndVariant π), .label (lblTagFail π), .pop, .pushBool false, .label (lblEndVariant π)])
-      (mk (.variant tag plv :: stk) locs tk none) =
+    run (variantWrap π idx inner) (mk (.variant tag plv :: stk) locs tk none) =
       some (mk (.bool (idx == tag && b) :: stk) locs tk none) := by
+  unfold variantWrap
   rw [List.append_assoc, List.cons_append, run_cons]
   simp only [step, Option.bind]
   rw [List.cons_append, run_cons]
@@ -431,14 +423,11 @@ theorem variantWrap_ok (π : Path) (idx tag : Nat) (plv : SVal) (inner : List In
 
 theorem voidCase_ok (π : Path) (idx tag : Nat) (plv : SVal)
     (stk : List SVal) (locs : List (Nat × SVal)) (tk : Option Nat) :
-    run [Instr.deconVariant, .pushInt idx, .eqInt, .jumpIfFalse (lblTagFail π),
-        .pop, .pushBool true, .jump (lblEndVariant π),
-        .label (lblTagFail π), .pop, .pushBool false, .label (lblEndVariant π)]
-      (mk (.variant tag plv :: stk) locs tk none) =
+    run (voidCase π idx) (mk (.variant tag plv :: stk) locs tk none) =
       some (mk (.bool (idx == tag) :: stk) locs tk none) := by
   have := variantWrap_ok π idx tag plv [.pop, .pushBool true] true stk locs tk (by simp [labelsOf])
     (fun _ => by simp [run_cons, step, run_nil])
-  simpa using this
+  simpa [variantWrap, voidCase] using this
 
 /-! ## Representation facts -/
 
@@ -530,7 +519,7 @@ mutual
   theorem cmp_ok (env : EnumEnv) (p : Pat) (π : Path) (ty : Ty) (D : List Path) (v : Val)
       (stk : List SVal) (locs : List (Nat × SVal)) (tk : Option Nat)
       (ht : patTyped env p ty = true) (hv : hasTy env v ty = true) :
-      run (cmp env π ty p D).1 (mk (slot env ty v ++ stk) locs tk none) =
+      run (cmp env π ty p D) (mk (slot env ty v ++ stk) locs tk none) =
         some (mk (.bool (pmatch (resolveP env π ty p D) v) :: stk) locs tk none) := by
     match p with
     | .wild =>
@@ -571,7 +560,7 @@ mutual
       obtain ⟨vs, rfl, hvs⟩ := hasTy_prod_tuple hv
       simp only [cmp, resolveP, pmatch, slot, Ty.isVoid, Bool.false_eq_true, if_false, productTys, repr_prod,
         List.singleton_append]
-      apply prodCode_ok env π ts ps _ _ D vs (hasTys_length hvs).symm (patsTyped_length ht)
+      apply prodCode_ok env π ts ps _ _ vs (hasTys_length hvs).symm (patsTyped_length ht)
         (resolveElems_length ..)
       intro hne
       have := cmpElems_ok env ps π 0 ts D vs stk locs tk ht hvs hne
@@ -582,7 +571,7 @@ mutual
       obtain ⟨vs, rfl, hvs⟩ := hasTy_prod_struct hv
       simp only [cmp, resolveP, pmatch, slot, Ty.isVoid, Bool.false_eq_true, if_false, productTys, repr_prod,
         List.singleton_append]
-      apply prodCode_ok env π ts ps _ _ D vs (hasTys_length hvs).symm (patsTyped_length ht.2)
+      apply prodCode_ok env π ts ps _ _ vs (hasTys_length hvs).symm (patsTyped_length ht.2)
         (resolveElems_length ..)
       intro hne
       have := cmpElems_ok env ps π 0 ts D vs stk locs tk ht.2 hvs hne
@@ -668,7 +657,7 @@ mutual
             have hX' := repr_variant_payload env e i' pl hs (by rw [hd]; exact hnv) (by rw [hd]; exact hpl)
             rw [hX', hd] at hX
             cases hX
-            simp only [cmpFirst, resolveFirst, pmatchNamed]
+            simp only [cmpFirst, resolveElems, List.headD_cons, pmatchNamed]
             have := cmp_ok env q (π ++ [0]) t D pl stk locs tk hqt hpl
             rwa [slot_nonvoid env pl hnv] at this
       | q :: q' :: qs, t :: t' :: ts, hps, _, hd =>
@@ -677,7 +666,7 @@ mutual
         simp only [hlen, Bool.false_eq_true, if_false, pmatch]
         apply variantWrap_ok π idx i' X _ _ stk locs tk
         · apply tagfail_not_in
-          exact prodCode_labels π _ _ _ D (cmpElems_labels env π 0 _ _ D)
+          exact prodCode_labels π _ _ _ (cmpElems_labels env π 0 _ _ D)
         · intro hi
           subst hi
           rw [hd] at hpl
@@ -692,7 +681,7 @@ mutual
             | a :: b :: c, _ => simp [pmatchNamed]
           rw [this]
           simp only [productTys]
-          apply prodCode_ok env π (t :: t' :: ts) (q :: q' :: qs) _ _ D vs (hasTys_length hvs).symm
+          apply prodCode_ok env π (t :: t' :: ts) (q :: q' :: qs) _ _ vs (hasTys_length hvs).symm
             (patsTyped_length hps) hrl
           intro hne
           have := cmpElems_ok env (q :: q' :: qs) π 0 (t :: t' :: ts) D vs stk locs tk hps hvs hne
@@ -709,7 +698,7 @@ mutual
   theorem cmpElems_ok (env : EnumEnv) (ps : List Pat) (π : Path) (i : Nat) (tys : List Ty) (D : List Path)
       (vs : List Val) (stk : List SVal) (locs : List (Nat × SVal)) (tk : Option Nat)
       (ht : patsTyped env ps tys = true) (hvs : hasTys env vs tys = true) (hne : ps ≠ []) :
-      run (cmpElems env π i tys ps D).1 (mk (reprFields env tys vs ++ stk) locs tk none) =
+      run (cmpElems env π i tys ps D) (mk (reprFields env tys vs ++ stk) locs tk none) =
         some (match elemsFail (resolveElems env π i tys ps D) vs with
           | none => mk stk locs tk (some (lblSuccess π))
           | some k => mk (reprFields env (tys.drop (k + 1)) (vs.drop (k + 1)) ++ stk) locs tk
@@ -737,8 +726,8 @@ mutual
           simp [cmpElems, resolveElems, elemsFail, run_cons, step, run_nil, reprFields]
         · have hemp' : ps'.isEmpty = false := by cases ps' <;> simp_all
           simp only [hemp', Bool.false_eq_true, if_false, List.nil_append]
-          rw [cmpElems_ok env ps' π (i + 1) ts _ vs' stk locs tk ht.2 hvs.2 hemp]
-          cases elemsFail (resolveElems env π (i + 1) ts ps' (cmp env (π ++ [i]) t p D).2) vs' with
+          rw [cmpElems_ok env ps' π (i + 1) ts D vs' stk locs tk ht.2 hvs.2 hemp]
+          cases elemsFail (resolveElems env π (i + 1) ts ps' D) vs' with
           | none => rfl
           | some k => simp only [Option.map_some]; rw [show i + 1 + k = i + (k + 1) by omega]
       · have hb' : pmatch (resolveP env (π ++ [i]) t p D) v = false := by simpa using hb
@@ -749,43 +738,13 @@ mutual
           intro hm
           rcases List.mem_append.1 hm with hm | hm
           · split at hm <;> simp [labelsOf] at hm
-          · have := cmpElems_labels env π (i + 1) ts ps' _ _ hm
+          · have := cmpElems_labels env π (i + 1) ts ps' D _ hm
             simp [lblFail] at this
     | _ :: _, [], _, ht, _ => simp [patsTyped] at ht
     | _ :: _, _ :: _, [], _, hvs => simp [hasTys] at hvs
 end
 
 /-! ## Binding code -/
-
-mutual
-  /-- which alternative `handle_pat_binding` binds under the decision set `D` (same walk as `bind`) -/
-  def resolveB (env : EnumEnv) : Path → Ty → Pat → List Path → Pat
-    | π, ty, .or l r, D =>
-      if D.contains π then resolveB env (π ++ [1]) ty r D else resolveB env (π ++ [0]) ty l D
-    | π, ty, .tuple ps, D => .tuple (resolveBList env π 0 (productTys ty) ps D)
-    | π, ty, .struct id ps, D => .struct id (resolveBList env π 0 (productTys ty) ps D)
-    | π, _, .variantPos e idx p, D =>
-      if (dataTy env e idx).isVoid then .variantPos e idx p
-      else .variantPos e idx (resolveB env (π ++ [0]) (dataTy env e idx) p D)
-    | π, _, .variantNamed e idx ps, D =>
-      if ps.length == 1 then
-        if (((variantFields env e idx).getD []).headD .void).isVoid then .variantNamed e idx ps
-        else .variantNamed e idx (resolveBList env π 0 ((variantFields env e idx).getD []) ps D)
-      else .variantNamed e idx (resolveBList env π 0 ((variantFields env e idx).getD []) ps D)
-    | _, _, .wild, _ => .wild
-    | _, _, .bind x, _ => .bind x
-    | _, _, .bool b, _ => .bool b
-    | _, _, .int i, _ => .int i
-    | _, _, .float f, _ => .float f
-    | _, _, .str s, _ => .str s
-    | _, _, .void, _ => .void
-    | _, _, .variant0 e i, _ => .variant0 e i
-  def resolveBList (env : EnumEnv) : Path → Nat → List Ty → List Pat → List Path → List Pat
-    | _, _, _, [], _ => []
-    | π, i, tys, p :: ps, D =>
-      resolveB env (π ++ [i]) (tys.headD .void) p D ::
-        resolveBList env π (i + 1) (tys.drop 1) ps (bind env (π ++ [i]) (tys.headD .void) p D).2
-end
 
 mutual
   /-- **what a pattern binds** (specification side, no decisions): every variable gets the
@@ -830,12 +789,6 @@ theorem bindingsOf_void {env : EnumEnv} : ∀ (p : Pat) (v : Val), patTyped env 
   | .variantPos _ _ _, _, h => by simp [patTyped] at h
   | .variantNamed _ _ _, _, h => by simp [patTyped] at h
 
-theorem resolveBList_length (env : EnumEnv) (π : Path) (i : Nat) (tys : List Ty) (ps : List Pat) (D : List Path) :
-    (resolveBList env π i tys ps D).length = ps.length := by
-  induction ps generalizing i tys D with
-  | nil => simp [resolveBList]
-  | cons p ps ih => simp [resolveBList, ih]
-
 mutual
   /-- **`handle_pat_binding` is correct**: on a value that the selected alternative matches, the code
       consumes exactly the value's slot and stores, for every variable, the representation of the
@@ -843,34 +796,34 @@ mutual
   theorem bind_ok (env : EnumEnv) (p : Pat) (π : Path) (ty : Ty) (D : List Path) (v : Val)
       (stk : List SVal) (locs : List (Nat × SVal)) (tk : Option Nat)
       (ht : patTyped env p ty = true) (hv : hasTy env v ty = true)
-      (hm : pmatch (resolveB env π ty p D) v = true) :
-      run (bind env π ty p D).1 (mk (slot env ty v ++ stk) locs tk none) =
-        some (mk stk ((bindingsOf env ty (resolveB env π ty p D) v).reverse ++ locs) tk none) := by
+      (hm : pmatch (resolveP env π ty p D) v = true) :
+      run (bind env π ty p D) (mk (slot env ty v ++ stk) locs tk none) =
+        some (mk stk ((bindingsOf env ty (resolveP env π ty p D) v).reverse ++ locs) tk none) := by
     match p with
     | .wild =>
-      simp only [bind, resolveB, bindingsOf, slot]
+      simp only [bind, resolveP, bindingsOf, slot]
       split <;> simp [run_cons, step, run_nil]
     | .bind x =>
-      simp only [bind, resolveB, bindingsOf, slot]
+      simp only [bind, resolveP, bindingsOf, slot]
       split <;> simp [run_cons, step, run_nil]
     | .void =>
       cases ty <;> simp [patTyped] at ht
-      simp [bind, resolveB, bindingsOf, slot, Ty.isVoid, run_nil]
+      simp [bind, resolveP, bindingsOf, slot, Ty.isVoid, run_nil]
     | .bool b =>
       cases ty <;> simp [patTyped] at ht
-      simp [bind, resolveB, bindingsOf, slot, Ty.isVoid, run_cons, step, run_nil]
+      simp [bind, resolveP, bindingsOf, slot, Ty.isVoid, run_cons, step, run_nil]
     | .int b =>
       cases ty <;> simp [patTyped] at ht
-      simp [bind, resolveB, bindingsOf, slot, Ty.isVoid, run_cons, step, run_nil]
+      simp [bind, resolveP, bindingsOf, slot, Ty.isVoid, run_cons, step, run_nil]
     | .float b =>
       cases ty <;> simp [patTyped] at ht
-      simp [bind, resolveB, bindingsOf, slot, Ty.isVoid, run_cons, step, run_nil]
+      simp [bind, resolveP, bindingsOf, slot, Ty.isVoid, run_cons, step, run_nil]
     | .str b =>
       cases ty <;> simp [patTyped] at ht
-      simp [bind, resolveB, bindingsOf, slot, Ty.isVoid, run_cons, step, run_nil]
+      simp [bind, resolveP, bindingsOf, slot, Ty.isVoid, run_cons, step, run_nil]
     | .or a b =>
       simp only [patTyped, Bool.and_eq_true] at ht
-      simp only [bind, resolveB] at hm ⊢
+      simp only [bind, resolveP] at hm ⊢
       split
       · rename_i hc; simp only [hc, if_true] at hm
         exact bind_ok env b (π ++ [1]) ty D v stk locs tk ht.2 hv hm
@@ -881,7 +834,7 @@ mutual
       rename_i ts
       obtain ⟨vs, rfl, hvs⟩ := hasTy_prod_tuple hv
       rw [slot_nonvoid env _ (show (Ty.tuple ts).isVoid = false from rfl), repr_prod]
-      simp only [bind, resolveB, bindingsOf, productTys, pmatch, List.singleton_append] at hm ⊢
+      simp only [bind, resolveP, bindingsOf, productTys, pmatch, List.singleton_append] at hm ⊢
       rw [run_cons]; simp only [step, Option.bind]
       exact bindList_ok env ps π 0 ts D vs stk locs tk ht hvs hm
     | .struct id ps =>
@@ -889,14 +842,14 @@ mutual
       rename_i id' ts
       obtain ⟨vs, rfl, hvs⟩ := hasTy_prod_struct hv
       rw [slot_nonvoid env _ (show (Ty.struct id' ts).isVoid = false from rfl), repr_prod]
-      simp only [bind, resolveB, bindingsOf, productTys, pmatch, List.singleton_append] at hm ⊢
+      simp only [bind, resolveP, bindingsOf, productTys, pmatch, List.singleton_append] at hm ⊢
       rw [run_cons]; simp only [step, Option.bind]
       exact bindList_ok env ps π 0 ts D vs stk locs tk ht.2 hvs hm
     | .variant0 e idx =>
       cases ty <;> simp [patTyped] at ht
       rename_i e'
       rw [slot_nonvoid env _ (show (Ty.enum e').isVoid = false from rfl)]
-      simp [bind, resolveB, bindingsOf, run_cons, step, run_nil]
+      simp [bind, resolveP, bindingsOf, run_cons, step, run_nil]
     | .variantPos e idx q =>
       cases ty <;> simp [patTyped] at ht
       rename_i e'
@@ -904,7 +857,7 @@ mutual
       subst he
       obtain ⟨i', pl, rfl, hs', hpl⟩ := hasTy_enum hv
       rw [slot_nonvoid env _ (show (Ty.enum e).isVoid = false from rfl)]
-      simp only [bind, resolveB] at hm ⊢
+      simp only [bind, resolveP] at hm ⊢
       by_cases hvoid : (dataTy env e idx).isVoid = true
       · simp only [hvoid, if_true, bindingsOf] at hm ⊢
         rw [isVoid_eq hvoid] at hq ⊢
@@ -929,7 +882,7 @@ mutual
       have hd := dataTy_some hfs
       rw [hfs] at hps; simp only [Option.getD_some] at hps
       rw [slot_nonvoid env _ (show (Ty.enum e).isVoid = false from rfl)]
-      simp only [bind, resolveB, hfs, Option.getD_some] at hm ⊢
+      simp only [bind, resolveP, hfs, Option.getD_some] at hm ⊢
       match ps, fs, hps, hne, hd with
       | [q], [t], hps, _, hd =>
         simp only [dataTyOfFields] at hd
@@ -951,16 +904,16 @@ mutual
           simp only [step, Option.bind]
           rw [List.cons_append, run_cons]
           simp only [step, Option.bind, List.nil_append]
-          have hm'' : pmatchAll (resolveBList env π 0 [t] [q] D) [pl] = true := by
-            simp only [resolveBList, List.headD_cons, pmatchNamed] at hm' ⊢
+          have hm'' : pmatchAll (resolveElems env π 0 [t] [q] D) [pl] = true := by
+            simp only [resolveElems, List.headD_cons, pmatchNamed] at hm' ⊢
             simp [pmatchAll, hm']
           have := bindList_ok env [q] π 0 [t] D [pl] stk locs tk hps (by simp [hasTys, hpl]) hm''
           have hrf : reprFields env [t] [pl] ++ stk = repr env t pl :: stk := by
             simp [reprFields, hnv]
           rw [hrf] at this
-          show run (bindList env π 0 [t] [q] D).1 (mk (repr env t pl :: stk) locs tk none) = _
+          show run (bindList env π 0 [t] [q] D) (mk (repr env t pl :: stk) locs tk none) = _
           rw [this]
-          simp [resolveBList, bindingsList, bindingsNamed]
+          simp [resolveElems, bindingsList, bindingsNamed]
       | q :: q' :: qs, t :: t' :: ts, hps, _, hd =>
         simp only [dataTyOfFields] at hd
         have hlen : ((q :: q' :: qs).length == 1) = false := by simp
@@ -977,12 +930,12 @@ mutual
         simp only [step, Option.bind]
         rw [List.cons_append, run_cons]
         simp only [step, Option.bind, List.nil_append, productTys]
-        have hrl := resolveBList_length env π 0 (t :: t' :: ts) (q :: q' :: qs) D
-        have hm'' : pmatchAll (resolveBList env π 0 (t :: t' :: ts) (q :: q' :: qs) D) vs = true := by
-          match hr : resolveBList env π 0 (t :: t' :: ts) (q :: q' :: qs) D, hrl with
+        have hrl := resolveElems_length env π 0 (t :: t' :: ts) (q :: q' :: qs) D
+        have hm'' : pmatchAll (resolveElems env π 0 (t :: t' :: ts) (q :: q' :: qs) D) vs = true := by
+          match hr : resolveElems env π 0 (t :: t' :: ts) (q :: q' :: qs) D, hrl with
           | a :: b :: c, _ => rw [hr] at hm'; simpa [pmatchNamed] using hm'
         rw [bindList_ok env (q :: q' :: qs) π 0 (t :: t' :: ts) D vs stk locs tk hps hvs hm'']
-        match hr : resolveBList env π 0 (t :: t' :: ts) (q :: q' :: qs) D, hrl with
+        match hr : resolveElems env π 0 (t :: t' :: ts) (q :: q' :: qs) D, hrl with
         | a :: b :: c, _ => simp [bindingsNamed]
       | [], [], _, hne, _ => simp at hne
       | [q], _ :: _ :: _, hps, _, _ => simp [patsTyped] at hps
@@ -993,17 +946,17 @@ mutual
   theorem bindList_ok (env : EnumEnv) (ps : List Pat) (π : Path) (i : Nat) (tys : List Ty) (D : List Path)
       (vs : List Val) (stk : List SVal) (locs : List (Nat × SVal)) (tk : Option Nat)
       (ht : patsTyped env ps tys = true) (hvs : hasTys env vs tys = true)
-      (hm : pmatchAll (resolveBList env π i tys ps D) vs = true) :
-      run (bindList env π i tys ps D).1 (mk (reprFields env tys vs ++ stk) locs tk none) =
-        some (mk stk ((bindingsList env tys (resolveBList env π i tys ps D) vs).reverse ++ locs) tk none) := by
+      (hm : pmatchAll (resolveElems env π i tys ps D) vs = true) :
+      run (bindList env π i tys ps D) (mk (reprFields env tys vs ++ stk) locs tk none) =
+        some (mk stk ((bindingsList env tys (resolveElems env π i tys ps D) vs).reverse ++ locs) tk none) := by
     match ps, tys, vs, ht, hvs with
-    | [], [], [], _, _ => simp [bindList, resolveBList, bindingsList, reprFields, run_nil]
+    | [], [], [], _, _ => simp [bindList, resolveElems, bindingsList, reprFields, run_nil]
     | p :: ps', t :: ts, v :: vs', ht, hvs =>
       simp only [patsTyped, Bool.and_eq_true] at ht
       simp only [hasTys, Bool.and_eq_true] at hvs
-      simp only [resolveBList, List.headD_cons, List.drop_succ_cons, List.drop_zero, pmatchAll,
+      simp only [resolveElems, List.headD_cons, List.drop_succ_cons, List.drop_zero, pmatchAll,
         Bool.and_eq_true] at hm
-      simp only [bindList, resolveBList, List.headD_cons, List.drop_succ_cons, List.drop_zero, bindingsList,
+      simp only [bindList, resolveElems, List.headD_cons, List.drop_succ_cons, List.drop_zero, bindingsList,
         reprFields_cons, List.append_assoc, List.reverse_append]
       rw [run_append, bind_ok env p (π ++ [i]) t D v _ locs tk ht.1 hvs.1 hm.1, Option.bind,
         bindList_ok env ps' π (i + 1) ts _ vs' stk _ tk ht.2 hvs.2 hm.2]
@@ -1016,112 +969,55 @@ end
 /-! ## Or-free patterns: decisions play no role -/
 
 mutual
-  theorem orfree_cmp (env : EnumEnv) (p : Pat) (π : Path) (ty : Ty) (D : List Path) (h : orCount p = 0) :
-      (cmp env π ty p D).2 = D ∧ resolveP env π ty p D = p ∧ traverse env π p D = false := by
+  theorem orfree_resolve (env : EnumEnv) (p : Pat) (π : Path) (ty : Ty) (D : List Path) (h : orCount p = 0) :
+      resolveP env π ty p D = p ∧ traverse env π p D = [] := by
     match p with
-    | .wild => simp [cmp, resolveP, traverse]
-    | .bind _ => simp [cmp, resolveP, traverse]
-    | .void => simp [cmp, resolveP, traverse]
-    | .bool _ => simp [cmp, resolveP, traverse]
-    | .int _ => simp [cmp, resolveP, traverse]
-    | .float _ => simp [cmp, resolveP, traverse]
-    | .str _ => simp [cmp, resolveP, traverse]
-    | .variant0 _ _ => simp [cmp, resolveP, traverse]
+    | .wild => simp [resolveP, traverse]
+    | .bind _ => simp [resolveP, traverse]
+    | .void => simp [resolveP, traverse]
+    | .bool _ => simp [resolveP, traverse]
+    | .int _ => simp [resolveP, traverse]
+    | .float _ => simp [resolveP, traverse]
+    | .str _ => simp [resolveP, traverse]
+    | .variant0 _ _ => simp [resolveP, traverse]
     | .or a b => simp [orCount] at h
     | .tuple ps =>
       simp only [orCount] at h
-      obtain ⟨h1, h2, h3⟩ := orfree_cmpElems env ps π 0 (productTys ty) D h
-      refine ⟨?_, by simp [resolveP, h2], by simp [traverse, h3]⟩
-      simp only [cmp, prodCode]; split <;> simp [h1]
+      obtain ⟨h2, h3⟩ := orfree_resolveElems env ps π 0 (productTys ty) D h
+      exact ⟨by simp [resolveP, h2], by simp [traverse, h3]⟩
     | .struct _ ps =>
       simp only [orCount] at h
-      obtain ⟨h1, h2, h3⟩ := orfree_cmpElems env ps π 0 (productTys ty) D h
-      refine ⟨?_, by simp [resolveP, h2], by simp [traverse, h3]⟩
-      simp only [cmp, prodCode]; split <;> simp [h1]
+      obtain ⟨h2, h3⟩ := orfree_resolveElems env ps π 0 (productTys ty) D h
+      exact ⟨by simp [resolveP, h2], by simp [traverse, h3]⟩
     | .variantPos e idx q =>
       simp only [orCount] at h
-      obtain ⟨h1, h2, h3⟩ := orfree_cmp env q (π ++ [0]) (dataTy env e idx) D h
-      simp only [cmp, resolveP, traverse]
-      split <;> simp [h1, h2, h3]
+      obtain ⟨h2, h3⟩ := orfree_resolve env q (π ++ [0]) (dataTy env e idx) D h
+      simp only [resolveP, traverse]
+      split <;> simp [h2, h3]
     | .variantNamed e idx ps =>
       simp only [orCount] at h
-      obtain ⟨h1, h2, h3⟩ := orfree_cmpElems env ps π 0 ((variantFields env e idx).getD []) D h
-      simp only [cmp, resolveP, traverse]
+      obtain ⟨h2, h3⟩ := orfree_resolveElems env ps π 0 ((variantFields env e idx).getD []) D h
+      simp only [resolveP, traverse]
       split
-      · rename_i hl
-        match ps, hl, h with
-        | [q], _, h =>
-          simp only [orCountList, Nat.add_zero] at h
-          obtain ⟨g1, g2, g3⟩ := orfree_cmp env q (π ++ [0]) (((variantFields env e idx).getD []).headD .void) D h
-          split
-          · simp
-          · simp only [cmpFirst, resolveFirst, traverseList]
-            rw [g1, g2, g3]; simp
-      · refine ⟨?_, by simp [h2], h3⟩
-        simp only [prodCode]; split <;> simp [h1]
-  theorem orfree_cmpElems (env : EnumEnv) (ps : List Pat) (π : Path) (i : Nat) (tys : List Ty) (D : List Path)
+      · split <;> simp [h2, h3]
+      · simp [h2, h3]
+  theorem orfree_resolveElems (env : EnumEnv) (ps : List Pat) (π : Path) (i : Nat) (tys : List Ty) (D : List Path)
       (h : orCountList ps = 0) :
-      (cmpElems env π i tys ps D).2 = D ∧ resolveElems env π i tys ps D = ps ∧ traverseList env π i ps D = false := by
+      resolveElems env π i tys ps D = ps ∧ traverseList env π i ps D = [] := by
     match ps with
-    | [] => simp [cmpElems, resolveElems, traverseList]
+    | [] => simp [resolveElems, traverseList]
     | p :: ps =>
       simp only [orCountList] at h
-      obtain ⟨h1, h2, h3⟩ := orfree_cmp env p (π ++ [i]) (tys.headD .void) D (by omega)
-      simp only [cmpElems, resolveElems, traverseList, h1, h2, h3]
-      obtain ⟨g1, g2, g3⟩ := orfree_cmpElems env ps π (i + 1) (tys.drop 1) D (by omega)
-      rw [g1, g2, g3]; simp
-end
-
-mutual
-  theorem orfree_bind (env : EnumEnv) (p : Pat) (π : Path) (ty : Ty) (D : List Path) (h : orCount p = 0) :
-      (bind env π ty p D).2 = D ∧ resolveB env π ty p D = p := by
-    match p with
-    | .wild => simp [bind, resolveB]
-    | .bind _ => simp [bind, resolveB]
-    | .void => simp [bind, resolveB]
-    | .bool _ => simp [bind, resolveB]
-    | .int _ => simp [bind, resolveB]
-    | .float _ => simp [bind, resolveB]
-    | .str _ => simp [bind, resolveB]
-    | .variant0 _ _ => simp [bind, resolveB]
-    | .or a b => simp [orCount] at h
-    | .tuple ps =>
-      simp only [orCount] at h
-      obtain ⟨h1, h2⟩ := orfree_bindList env ps π 0 (productTys ty) D h
-      simp [bind, resolveB, h1, h2]
-    | .struct _ ps =>
-      simp only [orCount] at h
-      obtain ⟨h1, h2⟩ := orfree_bindList env ps π 0 (productTys ty) D h
-      simp [bind, resolveB, h1, h2]
-    | .variantPos e idx q =>
-      simp only [orCount] at h
-      obtain ⟨h1, h2⟩ := orfree_bind env q (π ++ [0]) (dataTy env e idx) D h
-      simp only [bind, resolveB]
-      split <;> simp [h1, h2]
-    | .variantNamed e idx ps =>
-      simp only [orCount] at h
-      obtain ⟨h1, h2⟩ := orfree_bindList env ps π 0 ((variantFields env e idx).getD []) D h
-      simp only [bind, resolveB]
-      split
-      · split <;> simp [h1, h2]
-      · simp [h1, h2]
-  theorem orfree_bindList (env : EnumEnv) (ps : List Pat) (π : Path) (i : Nat) (tys : List Ty) (D : List Path)
-      (h : orCountList ps = 0) :
-      (bindList env π i tys ps D).2 = D ∧ resolveBList env π i tys ps D = ps := by
-    match ps with
-    | [] => simp [bindList, resolveBList]
-    | p :: ps =>
-      simp only [orCountList] at h
-      obtain ⟨h1, h2⟩ := orfree_bind env p (π ++ [i]) (tys.headD .void) D (by omega)
-      simp only [bindList, resolveBList, h1, h2]
-      obtain ⟨g1, g2⟩ := orfree_bindList env ps π (i + 1) (tys.drop 1) D (by omega)
-      rw [g1, g2]; simp
+      obtain ⟨h2, h3⟩ := orfree_resolve env p (π ++ [i]) (tys.headD .void) D (by omega)
+      obtain ⟨g2, g3⟩ := orfree_resolveElems env ps π (i + 1) (tys.drop 1) D (by omega)
+      simp only [resolveElems, traverseList]
+      rw [h2, h3, g2, g3]; simp
 end
 
 mutual
   /-- the binding code contains no labels -/
   theorem bind_nolabels (env : EnumEnv) (p : Pat) (π : Path) (ty : Ty) (D : List Path) :
-      labelsOf (bind env π ty p D).1 = [] := by
+      labelsOf (bind env π ty p D) = [] := by
     match p with
     | .wild => simp only [bind]; split <;> simp [labelsOf]
     | .bind _ => simp only [bind]; split <;> simp [labelsOf]
@@ -1151,165 +1047,86 @@ mutual
         · simp [labelsOf, bindList_nolabels env ps π 0 _ D]
       · simp [labelsOf, bindList_nolabels env ps π 0 _ D]
   theorem bindList_nolabels (env : EnumEnv) (ps : List Pat) (π : Path) (i : Nat) (tys : List Ty) (D : List Path) :
-      labelsOf (bindList env π i tys ps D).1 = [] := by
+      labelsOf (bindList env π i tys ps D) = [] := by
     match ps with
     | [] => simp [bindList]
     | p :: ps => simp [bindList, bind_nolabels env p _ _ D, bindList_nolabels env ps π (i + 1) _ _]
-end
-
-/-! ## Comparison and binding walk the same or-patterns -/
-
-mutual
-  theorem bind_cmp_same (env : EnumEnv) (p : Pat) (π : Path) (ty : Ty) (D : List Path) :
-      (bind env π ty p D).2 = (cmp env π ty p D).2 ∧ resolveB env π ty p D = resolveP env π ty p D := by
-    match p with
-    | .wild => simp [bind, cmp, resolveB, resolveP]
-    | .bind _ => simp [bind, cmp, resolveB, resolveP]
-    | .void => simp [bind, cmp, resolveB, resolveP]
-    | .bool _ => simp [bind, cmp, resolveB, resolveP]
-    | .int _ => simp [bind, cmp, resolveB, resolveP]
-    | .float _ => simp [bind, cmp, resolveB, resolveP]
-    | .str _ => simp [bind, cmp, resolveB, resolveP]
-    | .variant0 _ _ => simp [bind, cmp, resolveB, resolveP]
-    | .or a b =>
-      simp only [bind, cmp, resolveB, resolveP]
-      split
-      · exact bind_cmp_same env b (π ++ [1]) ty D
-      · obtain ⟨h1, h2⟩ := bind_cmp_same env a (π ++ [0]) ty D
-        simp [h1, h2]
-    | .tuple ps =>
-      obtain ⟨h1, h2⟩ := bindList_cmp_same env ps π 0 (productTys ty) D
-      simp only [bind, cmp, resolveB, resolveP, h2, prodCode, and_true]
-      split
-      · rename_i he
-        have : ps = [] := by simpa using he
-        subst this; simp [bindList]
-      · exact h1
-    | .struct _ ps =>
-      obtain ⟨h1, h2⟩ := bindList_cmp_same env ps π 0 (productTys ty) D
-      simp only [bind, cmp, resolveB, resolveP, h2, prodCode, and_true]
-      split
-      · rename_i he
-        have : ps = [] := by simpa using he
-        subst this; simp [bindList]
-      · exact h1
-    | .variantPos e idx q =>
-      obtain ⟨h1, h2⟩ := bind_cmp_same env q (π ++ [0]) (dataTy env e idx) D
-      simp only [bind, cmp, resolveB, resolveP]
-      split <;> simp [h1, h2]
-    | .variantNamed e idx ps =>
-      obtain ⟨h1, h2⟩ := bindList_cmp_same env ps π 0 ((variantFields env e idx).getD []) D
-      simp only [bind, cmp, resolveB, resolveP]
-      split
-      · rename_i hl
-        split
-        · simp
-        · match ps, hl with
-          | [q], _ =>
-            obtain ⟨g1, g2⟩ := bind_cmp_same env q (π ++ [0]) (((variantFields env e idx).getD []).headD .void) D
-            simp only [bindList, cmpFirst, resolveBList, resolveFirst, List.append_nil, g1, g2, and_self]
-      · simp only [h2, prodCode, and_true]
-        split
-        · rename_i he
-          have : ps = [] := by simpa using he
-          subst this; simp [bindList]
-        · exact h1
-  theorem bindList_cmp_same (env : EnumEnv) (ps : List Pat) (π : Path) (i : Nat) (tys : List Ty) (D : List Path) :
-      (bindList env π i tys ps D).2 = (cmpElems env π i tys ps D).2 ∧
-        resolveBList env π i tys ps D = resolveElems env π i tys ps D := by
-    match ps with
-    | [] => simp [bindList, cmpElems, resolveBList, resolveElems]
-    | p :: ps =>
-      obtain ⟨h1, h2⟩ := bind_cmp_same env p (π ++ [i]) (tys.headD .void) D
-      simp only [bindList, cmpElems, resolveBList, resolveElems, h1, h2]
-      obtain ⟨g1, g2⟩ := bindList_cmp_same env ps π (i + 1) (tys.drop 1) (cmp env (π ++ [i]) (tys.headD .void) p D).2
-      exact ⟨g1, by rw [g2]⟩
 end
 
 /-! ## The match expression: passes -/
 
 abbrev Pass := Nat × List Path × List Instr
 
-/-- the passes are numbered from `pass`, each is compiled under the decisions the previous one left -/
-def wfPasses (env : EnumEnv) (ty : Ty) (arms : List Pat) : Nat → List Path → List Pass → Prop
-  | _, _, [] => True
-  | pass, D, (a, D', code) :: rest =>
-    D' = D ∧ code = [Instr.dup] ++ (cmp env [a] ty (arms.getD a .wild) D).1 ++ [.jumpIf (lblArm pass)] ∧
-      a < arms.length ∧
-      wfPasses env ty arms (pass + 1) (cmp env [a] ty (arms.getD a .wild) D).2 rest
+/-- the passes are numbered from `pass`; each holds the comparison code of its arm under its own
+    decision set -/
+def wfPasses (env : EnumEnv) (ty : Ty) (arms : List Pat) : Nat → List Pass → Prop
+  | _, [] => True
+  | pass, (a, D, code) :: rest =>
+    code = [Instr.dup] ++ cmp env [a] ty (arms.getD a .wild) D ++ [.jumpIf (lblArm pass)] ∧
+      a < arms.length ∧ wfPasses env ty arms (pass + 1) rest
 
-/-- the decisions after a list of passes -/
-def endD (env : EnumEnv) (ty : Ty) (arms : List Pat) : List Path → List Pass → List Path
-  | D, [] => D
-  | D, (a, _, _) :: rest => endD env ty arms (cmp env [a] ty (arms.getD a .wild) D).2 rest
-
-theorem wfPasses_append (env : EnumEnv) (ty : Ty) (arms : List Pat) (pass : Nat) (D : List Path) (P Q : List Pass) :
-    wfPasses env ty arms pass D (P ++ Q) ↔
-      wfPasses env ty arms pass D P ∧ wfPasses env ty arms (pass + P.length) (endD env ty arms D P) Q := by
-  induction P generalizing pass D with
-  | nil => simp [wfPasses, endD]
+theorem wfPasses_append (env : EnumEnv) (ty : Ty) (arms : List Pat) (pass : Nat) (P Q : List Pass) :
+    wfPasses env ty arms pass (P ++ Q) ↔
+      wfPasses env ty arms pass P ∧ wfPasses env ty arms (pass + P.length) Q := by
+  induction P generalizing pass with
+  | nil => simp [wfPasses]
   | cons x P ih =>
     obtain ⟨a, D', code⟩ := x
-    simp only [List.cons_append, wfPasses, endD, ih, List.length_cons]
+    simp only [List.cons_append, wfPasses, ih, List.length_cons]
     rw [show pass + 1 + P.length = pass + (P.length + 1) by omega]
     constructor
-    · rintro ⟨h1, h2, h3, h4, h5⟩; exact ⟨⟨h1, h2, h3, h4⟩, h5⟩
-    · rintro ⟨⟨h1, h2, h3, h4⟩, h5⟩; exact ⟨h1, h2, h3, h4, h5⟩
+    · rintro ⟨h2, h3, h4, h5⟩; exact ⟨⟨h2, h3, h4⟩, h5⟩
+    · rintro ⟨⟨h2, h3, h4⟩, h5⟩; exact ⟨h2, h3, h4, h5⟩
 
 theorem armPasses_wf (env : EnumEnv) (ty : Ty) (arms : List Pat) (a : Nat) (ha : a < arms.length)
     (fuel pass : Nat) (D : List Path) :
-    wfPasses env ty arms pass D ((armPasses env ty a (arms.getD a .wild) fuel pass D).1.map (fun c => (a, c))) ∧
-      endD env ty arms D ((armPasses env ty a (arms.getD a .wild) fuel pass D).1.map (fun c => (a, c))) =
-        (armPasses env ty a (arms.getD a .wild) fuel pass D).2 := by
+    wfPasses env ty arms pass ((armPasses env ty a (arms.getD a .wild) fuel pass D).map (fun c => (a, c))) := by
   induction fuel generalizing pass D with
-  | zero => simp [armPasses, wfPasses, endD]
+  | zero => simp [armPasses, wfPasses]
   | succ fuel ih =>
     simp only [armPasses]
     split
-    · obtain ⟨h1, h2⟩ := ih (pass + 1) (cmp env [a] ty (arms.getD a .wild) D).2
-      refine ⟨?_, by simp only [List.map_cons, endD]; exact h2⟩
-      simp only [List.map_cons]
-      exact ⟨rfl, rfl, ha, h1⟩
-    · refine ⟨?_, by simp [endD]⟩
-      simp only [List.map_cons, List.map_nil]
-      exact ⟨rfl, rfl, ha, trivial⟩
+    · simp only [List.map_cons, List.map_nil]
+      exact ⟨rfl, ha, trivial⟩
+    · simp only [List.map_cons]
+      exact ⟨rfl, ha, ih _ _⟩
 
-theorem allPasses_wf (env : EnumEnv) (ty : Ty) (arms : List Pat) (ps : List Pat) (a pass : Nat) (D : List Path)
+theorem allPasses_wf (env : EnumEnv) (ty : Ty) (arms : List Pat) (ps : List Pat) (a pass : Nat)
     (hps : ∀ j, j < ps.length → a + j < arms.length ∧ arms.getD (a + j) .wild = ps.getD j .wild) :
-    wfPasses env ty arms pass D (allPasses env ty a ps pass D) := by
-  induction ps generalizing a pass D with
+    wfPasses env ty arms pass (allPasses env ty a ps pass) := by
+  induction ps generalizing a pass with
   | nil => simp [allPasses, wfPasses]
   | cons p ps ih =>
     have h0 := hps 0 (by simp)
     simp only [Nat.add_zero, List.getD_cons_zero] at h0
     simp only [allPasses]
     rw [wfPasses_append]
-    have hw := armPasses_wf env ty arms a h0.1 (orCount p + 1) pass D
+    have hw := armPasses_wf env ty arms a h0.1 (2 ^ orCount p) pass []
     rw [h0.2] at hw
-    refine ⟨hw.1, ?_⟩
-    rw [hw.2, List.length_map]
+    refine ⟨hw, ?_⟩
+    rw [List.length_map]
     apply ih
     intro j hj
     have := hps (j + 1) (by simp; omega)
     simpa [Nat.add_assoc, Nat.add_comm 1 j] using this
 
-theorem wfPasses_labels (env : EnumEnv) (ty : Ty) (arms : List Pat) (pass : Nat) (D : List Path) (P : List Pass)
-    (h : wfPasses env ty arms pass D P) :
+theorem wfPasses_labels (env : EnumEnv) (ty : Ty) (arms : List Pat) (pass : Nat) (P : List Pass)
+    (h : wfPasses env ty arms pass P) :
     ∀ l ∈ labelsOf (P.flatMap (fun x => x.2.2)), 1 ≤ l.path.length := by
-  induction P generalizing pass D with
+  induction P generalizing pass with
   | nil => simp
   | cons x P ih =>
     obtain ⟨a, D', code⟩ := x
-    obtain ⟨_, hc, _, hrest⟩ := h
+    obtain ⟨hc, _, hrest⟩ := h
     intro l hl
     simp only [List.flatMap_cons, labelsOf_append, List.mem_append] at hl
     rcases hl with hl | hl
     · subst hc
       simp only [labelsOf_append, labelsOf, List.nil_append, List.append_nil] at hl
-      have := cmp_labels env [a] ty _ D l hl; simpa using this
-    · exact ih _ _ hrest l hl
+      have := cmp_labels env [a] ty _ D' l hl; simpa using this
+    · exact ih _ hrest l hl
 
-/-- the alternative pass `x` compares -/
+/-- the alternative pass `x` compares (and binds) -/
 def passPat (env : EnumEnv) (ty : Ty) (arms : List Pat) (x : Pass) : Pat :=
   resolveP env [x.1] ty (arms.getD x.1 .wild) x.2.1
 
@@ -1319,18 +1136,18 @@ theorem passPat_mk (env : EnumEnv) (ty : Ty) (arms : List Pat) (a : Nat) (D : Li
 /-- comparison phase: ends skipping to the label of the first pass whose alternative matches -/
 theorem comparePhase (env : EnumEnv) (ty : Ty) (arms : List Pat) (v : Val) (hv : hasTy env v ty = true)
     (hnv : ty.isVoid = false) (harms : ∀ p ∈ arms, patTyped env p ty = true)
-    (P : List Pass) (pass : Nat) (D : List Path) (hwf : wfPasses env ty arms pass D P)
+    (P : List Pass) (pass : Nat) (hwf : wfPasses env ty arms pass P)
     (stk : List SVal) (locs : List (Nat × SVal)) (tk : Option Nat) :
     run (P.flatMap (fun x => x.2.2)) (mk (repr env ty v :: stk) locs tk none) =
       some (match P.findIdx? (fun x => pmatch (passPat env ty arms x) v) with
         | some r => mk (repr env ty v :: stk) locs tk (some (lblArm (pass + r)))
         | none => mk (repr env ty v :: stk) locs tk none) := by
-  induction P generalizing pass D with
+  induction P generalizing pass with
   | nil => simp [run_nil]
   | cons x P ih =>
     obtain ⟨a, D', code⟩ := x
-    obtain ⟨hD, hc, ha, hrest⟩ := hwf
-    subst hD hc
+    obtain ⟨hc, ha, hrest⟩ := hwf
+    subst hc
     have htp : patTyped env (arms.getD a .wild) ty = true := by
       rw [List.getD_eq_getElem?_getD, List.getElem?_eq_getElem ha]
       exact harms _ (List.getElem_mem ha)
@@ -1346,59 +1163,57 @@ theorem comparePhase (env : EnumEnv) (ty : Ty) (arms : List Pat) (v : Val) (hv :
       apply run_skip
       rw [mem_labelsOf]
       intro hm
-      have := wfPasses_labels env ty arms _ _ P hrest _ hm
+      have := wfPasses_labels env ty arms _ P hrest _ hm
       simp [lblArm] at this
     · have hb' : pmatch (resolveP env [a] ty (arms.getD a .wild) D') v = false := by simpa using hb
       simp only [hb', Bool.false_eq_true, if_false]
-      rw [ih (pass + 1) _ hrest]
+      rw [ih (pass + 1) hrest]
       cases P.findIdx? (fun x => pmatch (passPat env ty arms x) v) with
       | none => rfl
       | some r => simp only [Option.map_some]; rw [show pass + 1 + r = pass + (r + 1) by omega]
 
-theorem bodies_labels (env : EnumEnv) (ty : Ty) (arms : List Pat) (pass : Nat) (L : List Pass)
-    (D : List Path) : ∀ l ∈ labelsOf (bodies env ty arms pass L D), l.path = [] ∧ 100 ≤ l.kind := by
-  induction L generalizing pass D with
+theorem bodies_labels (env : EnumEnv) (ty : Ty) (arms : List Pat) (pass : Nat) (L : List Pass) :
+    ∀ l ∈ labelsOf (bodies env ty arms pass L), l.path = [] ∧ 100 ≤ l.kind := by
+  induction L generalizing pass with
   | nil => simp [bodies]
   | cons x L ih =>
-    obtain ⟨a, c⟩ := x
+    obtain ⟨a, D, c⟩ := x
     intro l hl
     simp only [bodies, labelsOf_append, labelsOf, bind_nolabels, List.nil_append, List.cons_append,
       List.mem_cons, List.mem_append] at hl
     rcases hl with hl | hl | hl
     · subst hl; simp [lblArm]
     · split at hl <;> simp [labelsOf] at hl
-    · exact ih _ _ l hl
+    · exact ih _ l hl
 
 /-- body phase: skipping to `lblArm (pass + r)` reaches the body of pass `r`, which binds through the
     alternative that pass compared and leaves through `endmatch` -/
 theorem bodiesPhase (env : EnumEnv) (ty : Ty) (arms : List Pat) (v : Val) (hv : hasTy env v ty = true)
     (hnv : ty.isVoid = false) (harms : ∀ p ∈ arms, patTyped env p ty = true)
-    (P : List Pass) (pass : Nat) (D : List Path) (hwf : wfPasses env ty arms pass D P)
+    (P : List Pass) (pass : Nat) (hwf : wfPasses env ty arms pass P)
     (r : Nat) (x : Pass) (hx : P[r]? = some x) (hm : pmatch (passPat env ty arms x) v = true)
     (stk : List SVal) (locs : List (Nat × SVal)) (tk : Option Nat) :
-    run (bodies env ty arms pass P D ++ [.label lblEndMatch])
+    run (bodies env ty arms pass P ++ [.label lblEndMatch])
       (mk (repr env ty v :: stk) locs tk (some (lblArm (pass + r)))) =
       some (mk stk ((bindingsOf env ty (passPat env ty arms x) v).reverse ++ locs) (some (pass + r)) none) := by
-  induction P generalizing pass D r with
+  induction P generalizing pass r with
   | nil => simp at hx
   | cons y P ih =>
     obtain ⟨a, D', code⟩ := y
-    obtain ⟨hD, hc, ha, hrest⟩ := hwf
-    subst hD
+    obtain ⟨hc, ha, hrest⟩ := hwf
     have htp : patTyped env (arms.getD a .wild) ty = true := by
       rw [List.getD_eq_getElem?_getD, List.getElem?_eq_getElem ha]
       exact harms _ (List.getElem_mem ha)
-    obtain ⟨hs1, hs2⟩ := bind_cmp_same env (arms.getD a .wild) [a] ty D'
-    simp only [bodies, hs1, List.append_assoc, List.singleton_append, List.cons_append, List.nil_append]
+    simp only [bodies, List.append_assoc, List.singleton_append, List.cons_append, List.nil_append]
     rw [run_cons]
     cases r with
     | zero =>
       simp only [List.getElem?_cons_zero, Option.some.injEq] at hx
       subst hx
-      simp only [Nat.add_zero, run_skip_label, Option.bind, passPat] at hm ⊢
+      simp only [Nat.add_zero, run_skip_label, Option.bind, passPat_mk] at hm ⊢
       rw [run_append]
-      have hb := bind_ok env (arms.getD a .wild) [a] ty D' v stk locs tk htp hv (by rw [hs2]; exact hm)
-      rw [slot_nonvoid env v hnv, List.singleton_append, hs2] at hb
+      have hb := bind_ok env (arms.getD a .wild) [a] ty D' v stk locs tk htp hv hm
+      rw [slot_nonvoid env v hnv, List.singleton_append] at hb
       rw [hb, Option.bind, run_cons]
       simp only [step, Option.bind]
       by_cases hemp : P.isEmpty = true
@@ -1410,7 +1225,7 @@ theorem bodiesPhase (env : EnumEnv) (ty : Ty) (arms : List Pat) (v : Val) (hv : 
         simp only [step, Option.bind]
         rw [run_append, run_skip _ _ _ _ _ (by
           rw [mem_labelsOf]; intro hmem
-          have := bodies_labels env ty arms _ _ _ _ hmem
+          have := bodies_labels env ty arms _ _ _ hmem
           simp [lblEndMatch] at this), Option.bind, run_cons, run_skip_label, Option.bind, run_nil]
     | succ r =>
       have hne : Instr.label (lblArm pass) ≠ Instr.label (lblArm (pass + (r + 1))) := by simp [lblArm]
@@ -1418,7 +1233,7 @@ theorem bodiesPhase (env : EnumEnv) (ty : Ty) (arms : List Pat) (v : Val) (hv : 
         run_skip _ _ _ _ _ (by rw [mem_labelsOf, bind_nolabels]; simp), Option.bind, run_cons,
         step_skip_ne _ _ (by simp), Option.bind, run_append,
         run_skip _ _ _ _ _ (by split <;> simp [lblArm, lblEndMatch]), Option.bind]
-      have := ih (pass + 1) _ hrest r (by simpa using hx)
+      have := ih (pass + 1) hrest r (by simpa using hx)
       rw [show pass + 1 + r = pass + (r + 1) by omega] at this
       exact this
 
@@ -1428,27 +1243,27 @@ theorem bodiesPhase (env : EnumEnv) (ty : Ty) (arms : List Pat) (v : Val) (hv : 
 theorem runMatch_general (env : EnumEnv) (ty : Ty) (arms : List Pat) (v : Val) (stk : List SVal)
     (hnv : ty.isVoid = false) (harms : ∀ p ∈ arms, patTyped env p ty = true) (hv : hasTy env v ty = true)
     (r : Nat) (x : Pass)
-    (hr : (allPasses env ty 0 arms 0 []).findIdx? (fun x => pmatch (passPat env ty arms x) v) = some r)
-    (hx : (allPasses env ty 0 arms 0 [])[r]? = some x) :
+    (hr : (allPasses env ty 0 arms 0).findIdx? (fun x => pmatch (passPat env ty arms x) v) = some r)
+    (hx : (allPasses env ty 0 arms 0)[r]? = some x) :
     runMatch env ty arms v stk =
       some (some x.1, some r, (bindingsOf env ty (passPat env ty arms x) v).reverse, stk) := by
-  have hwf := allPasses_wf env ty arms arms 0 0 [] (fun j hj => by simpa using hj)
+  have hwf := allPasses_wf env ty arms arms 0 0 (fun j hj => by simpa using hj)
   obtain ⟨hrlt, hrm, _⟩ := List.findIdx?_eq_some_iff_getElem.1 hr
-  have hxe : x = (allPasses env ty 0 arms 0 [])[r] := by
+  have hxe : x = (allPasses env ty 0 arms 0)[r] := by
     rw [List.getElem?_eq_getElem hrlt] at hx; exact (Option.some.inj hx).symm
   unfold runMatch matchCode
   simp only [hnv, Bool.false_eq_true, if_false, List.append_assoc]
   rw [run_append]
-  have h1 := comparePhase env ty arms v hv hnv harms _ 0 [] hwf stk [] none
+  have h1 := comparePhase env ty arms v hv hnv harms _ 0 hwf stk [] none
   rw [hr] at h1
   simp only [Nat.zero_add] at h1
   rw [show ({ stack := repr env ty v :: stk, locals := [], taken := none, skip := none } : St) =
     mk (repr env ty v :: stk) [] none none from rfl, h1, Option.bind]
-  have h2 := bodiesPhase env ty arms v hv hnv harms _ 0 [] hwf r x hx (by rw [hxe]; exact hrm) stk [] none
+  have h2 := bodiesPhase env ty arms v hv hnv harms _ 0 hwf r x hx (by rw [hxe]; exact hrm) stk [] none
   simp only [Nat.zero_add] at h2
   rw [h2]
   simp only [List.append_nil, Option.map_some]
-  have : ((allPasses env ty 0 arms 0 []).map (fun x => x.1)).getD r 0 = x.1 := by
+  have : ((allPasses env ty 0 arms 0).map (fun x => x.1)).getD r 0 = x.1 := by
     rw [List.getD_eq_getElem?_getD, List.getElem?_map, hx]; rfl
   rw [this]
 
@@ -1544,32 +1359,42 @@ theorem alts_or_length (l r : Pat) : 2 ≤ (alts (.or l r)).length := by
   | nil => exact absurd h this
   | cons _ _ => simp [alts, h]
 
+/-- the or-nodes of a chain that a walk reaches when the first `i` of them are decided right -/
+def reached (π : Path) (n i : Nat) : List Path :=
+  (List.range (if i + 1 < n then i + 1 else n - 1)).map (node π)
+
+theorem reached_succ (π : Path) (n i : Nat) (hn : 1 ≤ n) :
+    π :: reached (π ++ [1]) n i = reached π (n + 1) (i + 1) := by
+  unfold reached
+  have hc : (if i + 1 + 1 < n + 1 then i + 1 + 1 else n + 1 - 1) = (if i + 1 < n then i + 1 else n - 1) + 1 := by
+    split <;> split <;> omega
+  rw [hc, List.range_succ_eq_map, List.map_cons, node_zero, List.map_map]
+  congr 1
+  apply List.map_congr_left
+  intro k _
+  simp [node_succ]
+
 theorem chain_pass_orfree (env : EnumEnv) (ty : Ty) (p : Pat) (hof : orCount p = 0) (π : Path) (D : List Path)
     (i : Nat) (hi : i < (alts p).length) :
-    resolveP env π ty p D = (alts p)[i] ∧
-      (cmp env π ty p D).2 = (if i + 1 < (alts p).length then node π i :: D else D) ∧
-      traverse env π p D = decide (i + 1 < (alts p).length) := by
-  obtain ⟨g1, g2, g3⟩ := orfree_cmp env p π ty D hof
+    resolveP env π ty p D = (alts p)[i] ∧ traverse env π p D = reached π (alts p).length i := by
+  obtain ⟨g2, g3⟩ := orfree_resolve env p π ty D hof
   have ha := alts_orfree hof
   have hi0 : i = 0 := by rw [ha] at hi; simpa using hi
   subst hi0
-  refine ⟨?_, ?_, ?_⟩
+  refine ⟨?_, ?_⟩
   · rw [g2]; simp [ha]
-  · rw [g1, if_neg (by rw [ha]; simp)]
-  · rw [g3]; simp [ha]
+  · rw [g3]; simp [ha, reached]
 
-/-- pass `i` of a chain: it compiles alternative `i`, records the `i`-th or-node, and reports
-    "went left" unless it was the last alternative -/
+/-- pass `i` of a chain: it compiles alternative `i` and reaches the or-nodes `0 … min(i, n-2)` -/
 theorem chain_pass (env : EnumEnv) (ty : Ty) (p : Pat) (hchain : isChain p) (π : Path) (D : List Path) (i : Nat)
     (hi : i < (alts p).length) (hD : ∀ k, D.contains (node π k) = true ↔ k < i) :
-    resolveP env π ty p D = (alts p)[i] ∧
-      (cmp env π ty p D).2 = (if i + 1 < (alts p).length then node π i :: D else D) ∧
-      traverse env π p D = decide (i + 1 < (alts p).length) := by
+    resolveP env π ty p D = (alts p)[i] ∧ traverse env π p D = reached π (alts p).length i := by
   match p with
   | .or l r =>
     have hl : orCount l = 0 := hchain l (by simp [alts])
     have hr : isChain r := fun q hq => hchain q (by simp [alts, hq])
     have h2 := alts_or_length l r
+    have hlen : (alts (Pat.or l r)).length = (alts r).length + 1 := by simp [alts]
     have hc0 := hD 0
     rw [node_zero] at hc0
     cases i with
@@ -1578,23 +1403,21 @@ theorem chain_pass (env : EnumEnv) (ty : Ty) (p : Pat) (hchain : isChain p) (π 
         cases hc : D.contains π with
         | false => rfl
         | true => exact absurd (hc0.1 hc) (by omega)
-      obtain ⟨g1, g2, _⟩ := orfree_cmp env l (π ++ [0]) ty D hl
-      simp only [resolveP, cmp, traverse, hnc, Bool.false_eq_true, if_false, g1, g2, node_zero]
-      refine ⟨by simp [alts], ?_, ?_⟩
-      · rw [if_pos (by omega)]
-      · simp; omega
+      obtain ⟨g2, g3⟩ := orfree_resolve env l (π ++ [0]) ty D hl
+      simp only [resolveP, traverse, hnc, Bool.false_eq_true, if_false, g2, g3]
+      refine ⟨by simp [alts], ?_⟩
+      unfold reached
+      rw [if_pos (by omega)]
+      simp [node_zero]
     | succ i =>
       have hc : D.contains π = true := hc0.2 (by omega)
-      have hi' : i < (alts r).length := by simp [alts] at hi; omega
-      obtain ⟨g1, g2, g3⟩ := chain_pass env ty r hr (π ++ [1]) D i hi'
+      have hi' : i < (alts r).length := by omega
+      obtain ⟨g1, g3⟩ := chain_pass env ty r hr (π ++ [1]) D i hi'
         (fun k => by rw [node_succ]; exact (hD (k + 1)).trans (by omega))
-      have hlen : (alts (Pat.or l r)).length = (alts r).length + 1 := by simp [alts]
-      simp only [resolveP, cmp, traverse, hc, if_true, g1, g2, g3, node_succ]
-      refine ⟨by simp [alts], ?_, ?_⟩
-      · by_cases h : i + 1 < (alts r).length
-        · rw [if_pos h, if_pos (by omega)]
-        · rw [if_neg h, if_neg (by omega)]
-      · rw [decide_eq_decide]; omega
+      simp only [resolveP, traverse, hc, if_true, g1, g3]
+      refine ⟨by simp [alts], ?_⟩
+      rw [hlen]
+      exact reached_succ π _ i (by omega)
   | .wild => exact chain_pass_orfree env ty _ (hchain _ (by simp [alts])) π D i hi
   | .bind _ => exact chain_pass_orfree env ty _ (hchain _ (by simp [alts])) π D i hi
   | .bool _ => exact chain_pass_orfree env ty _ (hchain _ (by simp [alts])) π D i hi
@@ -1607,6 +1430,33 @@ theorem chain_pass (env : EnumEnv) (ty : Ty) (p : Pat) (hchain : isChain p) (π 
   | .variant0 _ _ => exact chain_pass_orfree env ty _ (hchain _ (by simp [alts])) π D i hi
   | .variantPos _ _ _ => exact chain_pass_orfree env ty _ (hchain _ (by simp [alts])) π D i hi
   | .variantNamed _ _ _ => exact chain_pass_orfree env ty _ (hchain _ (by simp [alts])) π D i hi
+
+/-- `lastLeft` over consecutive or-nodes of which exactly those below `i` are decided -/
+theorem lastLeft_nodes (π : Path) (D : List Path) (i : Nat) (hD : ∀ k, D.contains (node π k) = true ↔ k < i)
+    (s c : Nat) :
+    lastLeft ((List.range' s c).map (node π)) D = if c = 0 ∨ s + c ≤ i then none else some (c - 1) := by
+  induction c generalizing s with
+  | zero => simp [lastLeft]
+  | succ c ih =>
+    simp only [List.range'_succ, List.map_cons, lastLeft, ih (s + 1)]
+    by_cases h1 : c = 0 ∨ s + 1 + c ≤ i
+    · rw [if_pos h1]
+      by_cases hs : s < i
+      · have hc := (hD s).2 hs
+        simp only [hc, if_true]
+        rw [if_pos (by rcases h1 with h | h <;> omega)]
+      · have hc : D.contains (node π s) = false := by
+          cases h : D.contains (node π s) with
+          | false => rfl
+          | true => exact absurd ((hD s).1 h) hs
+        simp only [hc, Bool.false_eq_true, if_false]
+        rcases h1 with h | h
+        · subst h; rw [if_neg (by omega)]
+        · omega
+    · rw [if_neg h1]
+      simp only
+      rw [if_neg (by omega)]
+      congr 1; omega
 
 theorem contains_cons_node (D : List Path) (a i k : Nat) :
     (node [a] i :: D).contains (node [a] k) = true ↔ (k = i ∨ D.contains (node [a] k) = true) := by
@@ -1624,25 +1474,40 @@ theorem armPasses_chain (env : EnumEnv) (ty : Ty) (arms : List Pat) (a : Nat) (p
     (hp : arms.getD a .wild = p) (hchain : isChain p) :
     ∀ (m i pass fuel : Nat) (D : List Path), i + m = (alts p).length → 1 ≤ m → m ≤ fuel →
       (∀ k, D.contains (node [a] k) = true ↔ k < i) →
-      ((armPasses env ty a p fuel pass D).1.map (fun c => passPat env ty arms (a, c))) = (alts p).drop i ∧
-        (∀ π' ∈ (armPasses env ty a p fuel pass D).2, π' ∈ D ∨ ∃ k, π' = node [a] k) := by
+      ((armPasses env ty a p fuel pass D).map (fun c => passPat env ty arms (a, c))) = (alts p).drop i := by
   intro m
   induction m with
   | zero => intro i pass fuel D _ h1; omega
   | succ m ih =>
     intro i pass fuel D him _ hfuel hD
     have hi : i < (alts p).length := by omega
-    obtain ⟨g1, g2, g3⟩ := chain_pass env ty p hchain [a] D i hi hD
+    obtain ⟨g1, g3⟩ := chain_pass env ty p hchain [a] D i hi hD
     cases fuel with
     | zero => omega
     | succ f =>
-      have hpp : passPat env ty arms (a, D, [Instr.dup] ++ (cmp env [a] ty p D).1 ++ [.jumpIf (lblArm pass)]) =
+      have hpp : passPat env ty arms (a, D, [Instr.dup] ++ cmp env [a] ty p D ++ [.jumpIf (lblArm pass)]) =
           (alts p)[i] := by rw [passPat_mk, hp]; exact g1
-      simp only [armPasses, g3]
+      have hll : lastLeft (traverse env [a] p D) D =
+          if i + 1 < (alts p).length then some i else none := by
+        rw [g3]
+        unfold reached
+        rw [List.range_eq_range', lastLeft_nodes [a] D i hD]
+        by_cases hlast : i + 1 < (alts p).length
+        · rw [if_pos hlast, if_pos hlast, if_neg (by omega)]; simp
+        · rw [if_neg hlast, if_neg hlast, if_pos (by omega)]
+      simp only [armPasses, hll]
       by_cases hlast : i + 1 < (alts p).length
-      · simp only [hlast, decide_true, if_true, List.map_cons, hpp]
-        rw [g2, if_pos hlast]
-        obtain ⟨h1, h2⟩ := ih (i + 1) (pass + 1) f (node [a] i :: D) (by omega) (by omega) (by omega)
+      · simp only [hlast, if_true, List.map_cons, hpp]
+        have hnext : nextDecisions (traverse env [a] p D) i D = node [a] i :: D := by
+          rw [g3]
+          unfold nextDecisions reached
+          rw [if_pos hlast]
+          have h1 : ((List.range (i + 1)).map (node [a])).getD i [] = node [a] i := by
+            simp [List.getD_eq_getElem?_getD]
+          have h2 : ((List.range (i + 1)).map (node [a])).drop (i + 1) = [] := by
+            apply List.drop_eq_nil_of_le; simp
+          rw [h1, h2]; simp
+        rw [hnext, ih (i + 1) (pass + 1) f (node [a] i :: D) (by omega) (by omega) (by omega)
           (fun k => by
             rw [contains_cons_node]
             constructor
@@ -1652,19 +1517,9 @@ theorem armPasses_chain (env : EnumEnv) (ty : Ty) (arms : List Pat) (a : Nat) (p
             · intro h
               by_cases hk : k = i
               · exact Or.inl hk
-              · exact Or.inr ((hD k).2 (by omega)))
-        refine ⟨?_, ?_⟩
-        · rw [h1]; exact (List.drop_eq_getElem_cons hi).symm
-        · intro π' hπ
-          rcases h2 π' hπ with h | h
-          · simp only [List.mem_cons] at h
-            rcases h with h | h
-            · exact Or.inr ⟨i, h⟩
-            · exact Or.inl h
-          · exact Or.inr h
-      · simp only [hlast, decide_false, Bool.false_eq_true, if_false, List.map_cons, List.map_nil, hpp]
-        rw [g2, if_neg hlast]
-        refine ⟨?_, fun π' hπ => Or.inl hπ⟩
+              · exact Or.inr ((hD k).2 (by omega)))]
+        exact (List.drop_eq_getElem_cons hi).symm
+      · simp only [hlast, if_false, List.map_cons, List.map_nil, hpp]
         rw [List.drop_eq_getElem_cons hi, List.drop_eq_nil_of_le (by omega)]
 
 /-- all alternatives of all arms, in order, with their arm index -/
@@ -1693,45 +1548,34 @@ theorem orCount_chain {p : Pat} (h : isChain p) : orCount p + 1 = (alts p).lengt
   | .variantNamed e i ps => have := h (.variantNamed e i ps) (by simp [alts]); simp [alts, this]
 
 theorem allPasses_chain (env : EnumEnv) (ty : Ty) (arms : List Pat) :
-    ∀ (ps : List Pat) (a pass : Nat) (D : List Path),
+    ∀ (ps : List Pat) (a pass : Nat),
       (∀ j, j < ps.length → arms.getD (a + j) .wild = ps.getD j .wild) → (∀ p ∈ ps, isChain p) →
-      (∀ π' ∈ D, ∃ a', a' < a ∧ π'.head? = some a') →
-      (allPasses env ty a ps pass D).map (fun x => (x.1, passPat env ty arms x)) = altList a ps := by
+      (allPasses env ty a ps pass).map (fun x => (x.1, passPat env ty arms x)) = altList a ps := by
   intro ps
   induction ps with
-  | nil => intro a pass D _ _ _; simp [allPasses, altList]
+  | nil => intro a pass _ _; simp [allPasses, altList]
   | cons p ps ih =>
-    intro a pass D harms hch hD
+    intro a pass harms hch
     have hp : arms.getD a .wild = p := by simpa using harms 0 (by simp)
     have hcp := hch p (List.mem_cons_self ..)
-    have hD0 : ∀ k, D.contains (node [a] k) = true ↔ k < 0 := by
-      intro k
-      constructor
-      · intro hc
-        have hm : node [a] k ∈ D := by simpa using hc
-        obtain ⟨a', ha', hh⟩ := hD _ hm
-        simp [node] at hh; omega
-      · intro h; omega
-    obtain ⟨h1, h2⟩ := armPasses_chain env ty arms a p hp hcp (alts p).length 0 pass (orCount p + 1) D
-      (by simp) (by have := alts_ne_nil p; cases h : alts p <;> simp_all) (Nat.le_of_eq (orCount_chain hcp).symm) hD0
+    have hfuel : (alts p).length ≤ 2 ^ orCount p := by
+      have := orCount_chain hcp
+      have h2 : orCount p < 2 ^ orCount p := Nat.lt_two_pow_self
+      omega
+    have h1 := armPasses_chain env ty arms a p hp hcp (alts p).length 0 pass (2 ^ orCount p) []
+      (by simp) (by have := alts_ne_nil p; cases h : alts p <;> simp_all) hfuel (by intro k; simp)
     simp only [allPasses, altList, List.map_append, List.map_map]
     congr 1
-    · have : (fun c => (a, passPat env ty arms (a, c))) =
-          (fun q => (a, q)) ∘ (fun c => passPat env ty arms (a, c)) := rfl
-      simp only [Function.comp_def]
-      rw [show (List.map (fun c => (a, passPat env ty arms (a, c))) (armPasses env ty a p (orCount p + 1) pass D).1) =
-        ((armPasses env ty a p (orCount p + 1) pass D).1.map (fun c => passPat env ty arms (a, c))).map
-          (fun q => (a, q)) by simp [List.map_map], h1]
+    · rw [show (List.map ((fun x => (x.1, passPat env ty arms x)) ∘ fun c => (a, c))
+          (armPasses env ty a p (2 ^ orCount p) pass [])) =
+        ((armPasses env ty a p (2 ^ orCount p) pass []).map (fun c => passPat env ty arms (a, c))).map
+          (fun q => (a, q)) by simp [List.map_map, Function.comp_def], h1]
       simp
     · apply ih
       · intro j hj
         have := harms (j + 1) (by simp; omega)
         simpa [Nat.add_assoc, Nat.add_comm 1 j] using this
       · exact fun q hq => hch q (List.mem_cons_of_mem _ hq)
-      · intro π' hπ
-        rcases h2 π' hπ with h | ⟨k, h⟩
-        · obtain ⟨a', ha', hh⟩ := hD _ h; exact ⟨a', by omega, hh⟩
-        · exact ⟨a, by omega, by simp [h, node]⟩
 
 /-- the first matching entry of `altList` belongs to the first matching arm and is its first
     matching alternative -/
@@ -1779,7 +1623,7 @@ theorem runMatch_chain (env : EnumEnv) (ty : Ty) (arms : List Pat) (v : Val) (st
     (hv : hasTy env v ty = true) (k : Nat) (hk : arms.findIdx? (fun p => pmatch p v) = some k) :
     ∃ r, runMatch env ty arms v stk =
       some (some k, some r, (bindingsOf env ty (arms.getD k .wild) v).reverse, stk) := by
-  have hmap := allPasses_chain env ty arms arms 0 0 [] (fun j _ => by simp) hch (by simp)
+  have hmap := allPasses_chain env ty arms arms 0 0 (fun j _ => by simp) hch
   obtain ⟨r, q, h1, h2, h3⟩ := altList_first v arms 0 k hk
   rw [← hmap, List.findIdx?_map] at h1
   rw [← hmap, List.getElem?_map] at h2
